@@ -5,6 +5,8 @@ From SasLexer Require Import Gen.TokenType Gen.ErrorKind Gen.Channel Model.Base 
 Import ListNotations.
 Open Scope N_scope.
 
+Definition line0 : line_info := mkLine 0 0.
+
 (** the first line starts right after a leading BOM *)
 Definition first_line (src : list char) : line_info :=
   match src with
@@ -12,34 +14,23 @@ Definition first_line (src : list char) : line_info :=
   | [] => mkLine 0 0
   end.
 
-Lemma init_LInv src : LInv (first_line src) src (init src).
+Lemma init_LInv text : LInv line0 text (init text).
 Proof.
-  intros _. unfold init, first_line.
-  destruct src as [|c r].
-  - cbn. split; [reflexivity|]. split; [|exact I].
-    intros pre E. cbn in *. destruct pre; [reflexivity|discriminate].
-  - destruct (c =? BOM) eqn:Eb; cbn -[blen table].
-    + split; [reflexivity|]. split; [|exact I].
-      intros pre E. cbn -[blen table] in *.
-      assert (pre = [c]) by (eapply app_inv_tail; rewrite <- E; reflexivity). subst pre.
-      unfold table. cbn [starts_from]. apply N.eqb_eq in Eb. subst c.
-      replace (BOM =? NL) with false by reflexivity. cbn [blen]. f_equal. f_equal. lia.
-    + split; [reflexivity|]. split; [|exact I].
-      intros pre E. cbn -[blen table] in *.
-      assert (pre = []) by (eapply app_inv_tail; rewrite <- E; reflexivity). subst pre.
-      unfold table. cbn [starts_from]. f_equal. f_equal. lia.
+  intros _. unfold init. cbn -[blen table]. split; [reflexivity|]. split; [|exact I].
+  intros pre E. cbn -[blen table] in *.
+  assert (pre = []) by (eapply app_inv_tail; rewrite <- E; reflexivity). subst pre. reflexivity.
 Qed.
 
-Lemma lex_state_LInv cfg src :
-  lr_outcome (lex cfg src) = None -> LInv (first_line src) src (lr_state (lex cfg src)).
+Lemma lex_text_state_LInv cfg bb bc text :
+  lr_outcome (lex_text cfg bb bc text) = None -> LInv line0 text (lr_state (lex_text cfg bb bc text)).
 Proof.
-  unfold lex.
-  set (ml := main_loop _ _ _).
-  pose proof (run_LInv (first_line src) src (dbg cfg) ml (init src) (init_InvPos src) (init_LInv src)) as H1.
-  pose proof (run_InvPos (dbg cfg) src ml (init src) (init_InvPos src)) as I1.
-  destruct (run (dbg cfg) ml (init src)) as [det s1|site s1]; [|cbn; discriminate].
+  unfold lex_text.
+  match goal with |- context [run (dbg cfg) ?p (init text)] => set (ml := p) end.
+  pose proof (run_LInv line0 text (dbg cfg) ml (init text) (init_InvPos text) (init_LInv text)) as H1.
+  pose proof (run_InvPos (dbg cfg) text ml (init text) (init_InvPos text)) as I1.
+  destruct (run (dbg cfg) ml (init text)) as [det s1|site s1]; [|cbn; discriminate].
   cbn [res_inv] in I1. destruct det; [intros _; exact H1|].
-  pose proof (run_LInv (first_line src) src (dbg cfg) (finalize_lexing (S (S (N.to_nat (s_nmodes s1))))) s1 I1 H1) as H2.
+  pose proof (run_LInv line0 text (dbg cfg) (finalize_lexing (S (S (N.to_nat (s_nmodes s1))))) s1 I1 H1) as H2.
   destruct (run (dbg cfg) (finalize_lexing _) s1); [intros _; exact H2|cbn; discriminate].
 Qed.
 
@@ -52,9 +43,31 @@ Proof.
   destruct (x =? NL); [rewrite len_cons, IH; lia|rewrite IH; lia].
 Qed.
 
+Lemma starts_from_shift bb bc p : forall b c,
+  map (shift_line bb bc) (starts_from b c p) = starts_from (b + bb) (c + bc) p.
+Proof.
+  induction p as [|x p IH]; intros b c; cbn [starts_from map]; [reflexivity|].
+  destruct (x =? NL); cbn [map]; rewrite IH; unfold shift_line; cbn [l_byte l_start].
+  - f_equal; [f_equal; lia|f_equal; lia].
+  - f_equal; lia.
+Qed.
+
+(** the text of a source and its line starts in absolute terms *)
+Lemma split_bom_table src bb bc text :
+  split_bom src = ((bb, bc), text) ->
+  first_line src = mkLine bb bc /\ starts_from 0 0 src = starts_from bb bc text /\ count_nl src = count_nl text.
+Proof.
+  unfold split_bom, first_line. destruct src as [|c r].
+  - intros H; inversion H; subst. repeat split.
+  - destruct (c =? BOM) eqn:Eb; intros H; inversion H; subst.
+    + apply N.eqb_eq in Eb. subst c. cbn [starts_from count_nl]. replace (BOM =? NL) with false by reflexivity.
+      repeat split.
+    + repeat split.
+Qed.
+
 (** If the run returns with the line monitor on, no pending line feed, and the whole input
-    consumed, the line table of the returned buffer is: the first line start, then the
-    position right after every line feed of the source, in order. *)
+    consumed, the line table of the returned buffer is: the first line start (after a BOM),
+    then the position right after every line feed of the source, in order. *)
 Theorem lex_line_table cfg src :
   let r := lex cfg src in
   lr_outcome r = None ->
@@ -63,14 +76,16 @@ Theorem lex_line_table cfg src :
   c_rest (s_cur (lr_state r)) = [] ->
   b_lines (lr_buffer r) = first_line src :: starts_from 0 0 src.
 Proof.
-  intros r Ho Ok Debt Rest. subst r.
-  destruct (lex_buffer_errors cfg src) as [-> _].
-  destruct (lex_state_LInv cfg src Ho Ok) as (L1 & L2 & _).
-  specialize (L2 src). rewrite Rest, app_nil_r in L2. specialize (L2 eq_refl). rewrite Debt in L2.
+  cbv zeta. unfold lex. destruct (split_bom src) as [[bb bc] text] eqn:Es.
+  destruct (split_bom_table _ _ _ _ Es) as (-> & -> & _).
+  intros Ho Ok Debt Rest.
+  destruct (lex_text_buffer_errors cfg bb bc text) as [-> _].
+  destruct (lex_text_state_LInv cfg bb bc text Ho Ok) as (L1 & L2 & _).
+  specialize (L2 text). rewrite Rest, app_nil_r in L2. specialize (L2 eq_refl). rewrite Debt in L2.
   unfold into_detached. cbn [b_lines].
-  destruct (w_lines (s_buf (lr_state (lex cfg src)))) as [|l ls] eqn:E.
+  destruct (w_lines (s_buf (lr_state (lex_text cfg bb bc text)))) as [|l ls] eqn:E.
   - cbn in L2. discriminate.
-  - exact L2.
+  - rewrite L2. unfold table. cbn [map]. rewrite starts_from_shift. reflexivity.
 Qed.
 
 Corollary lex_line_count cfg src :
